@@ -809,3 +809,17 @@ def cosmwasm(I, st, frame, t, name, self_ty, tys, trait, method, args, ev):
         if method in ("unchecked", "into_string", "as_str", "to_string", "as_bytes", "as_ref", "clone"):
             return without_call(D(a0))
     return NotImplemented
+
+
+# first-party helpers modelled as primitives (trusted base; re-derived from their own MIR in the thorough tier)
+LOCAL_PRIMITIVES = {
+    "mantra_dex_std::coin::aggregate_coins": "regroups coins by denom (lossless: elements keep their origin)",
+}
+
+
+def local_primitive(I, st, frame, callee_id, args):
+    if callee_id == "mantra_dex_std::coin::aggregate_coins":
+        a0 = I.deref_full(st, args[0]) if args else EMPTY
+        el = I.deref_full(st, elem_of(I, st, a0)) if not a0.is_empty() else EMPTY
+        return Val(frozenset(), {"[*]": without_tags(el)})
+    return NotImplemented
